@@ -317,8 +317,13 @@ def _locate_droplets_in_mask_cylindrical(mask: ScalarField) -> Emulsion:
             for droplet in candidates:
                 # correct for the additional padding of the array
                 droplet.position[2] -= grid.length
-                # check whether the droplet lies in the original box
-                if z_min <= droplet.position[2] < z_max:
+                # check whether the droplet lies in the original box. Droplets centered on
+                # the periodic boundary can miss both ends due to rounding errors. We thus
+                # also accept centers within half a cell of the box, wrap them back, and
+                # leave it to the filter below to remove the duplicate
+                z = droplet.position[2]
+                if z_min - 0.5 * grid.discretization[1] <= z < z_max + 0.5 * grid.discretization[1]:
+                    droplet.position[2] = z_min + (z - z_min) % grid.length
                     droplets.append(droplet)
 
             _logger.info("Kept %d central droplets.", len(droplets))
